@@ -8,7 +8,11 @@ evaluated by vm_compute on the same operation histories as the real sync and asy
 (device log, belief, device mode, dict keys, outcome after every operation); an independent oracle reads the
 device's own execution log.  Interrupted operations (harness/c03_int.py): a scripted transport raises (exception,
 ScrapliTimeout, or never answers while the caller's asyncio.wait_for gives up) at every read / write index of one
-operation, the caller catches it and goes on; model: NetDriver.v [run_hist_i] (interruption points), C03_belief_sound."""
+operation, the caller catches it and goes on; model: NetDriver.v [run_hist_i] (interruption points), C03_belief_sound.
+Late registration (suites reg-late, reg-late-prefix): a configuration session registered while the connection sits in exec /
+privilege_exec / configuration / tclsh / inside another session, then configs at each session / configuration and commands;
+registering keeps the belief (REGISTER fact p_reg_keeps, from the ast), C03_register_in_any_level.  The oracle accepts a
+DUMMY belief as the known finding's premise only where the history accounts for it (dummy_explained)."""
 import itertools
 import json
 import os
@@ -188,15 +192,55 @@ def op_want(pi, o, bef):
     return want, ulines, tgt
 
 
+def info_for(info, sc):
+    """scenarios may name configuration sessions outside the generated family ("extra_sessions": oracle-only, e.g. EOS
+    sessions sharing their first six characters): the platform facts extended by these names for the oracle"""
+    extra = sc.get("extra_sessions")
+    if not extra:
+        return info
+    pi = dict(info[sc["platform"]])
+    pi["sessions"] = list(pi["sessions"]) + [x for x in extra if x not in pi["sessions"]]
+    pi["level_ids"] = dict(pi["level_ids"])
+    pi["line_ids"] = dict(pi["line_ids"])
+    for x in extra:
+        pi["level_ids"].setdefault(x, 1000 + len(pi["level_ids"]))
+        pi["line_ids"].setdefault("configure session " + x, 1000 + len(pi["line_ids"]))
+    out = dict(info)
+    out[sc["platform"]] = pi
+    return out
+
+
+def dummy_explained(sc, obs):
+    """per operation: is a belief DUMMY at the START of the operation accounted for by the history?  The belief is DUMMY
+    at login; afterwards only switching generic-driver mode on, or an operation that did not complete (exception /
+    interruption: the reset precedes every transition) may leave it DUMMY.  An operation that completes — registering a
+    configuration session in particular — has no business forgetting a level the driver knew: a DUMMY it leaves behind
+    is NOT the known finding's premise, and whatever goes wrong afterwards is reported."""
+    out = []
+    ex = True
+    for o, ob in zip(sc["ops"], obs):
+        out.append(ex)
+        if ob["belief"] != "DUMMY":
+            ex = True
+        elif (o["op"] == "generic" and o.get("value")) or ob["result"] != "ok":
+            ex = True
+        elif ob["before"]["belief"] != "DUMMY":
+            ex = False
+        # else: DUMMY before and after a completed operation: as before
+    return out
+
+
 def oracle_int(info, sc, obs):
     """histories with interrupted operations (the caller caught the exception and went on).  Read off the device's own
     log: every user line — whichever later return made the device execute it, alone or glued to a typed-but-unreturned
     input the cut left in the device's line buffer — ran in the level its operation required; after every operation,
     cut or not, the driver's belief is DUMMY or the device's mode.  User lines are unique per history, so a line
     names its operation.  returns None or (op index, what, in_known_region)"""
+    info = info_for(info, sc)
     plat = sc["platform"]
     pi = info[plat]
     navset = set(pi["line_ids"].keys())
+    explained = dummy_explained(sc, obs)
     owner = {}
     for i, (o, ob) in enumerate(zip(sc["ops"], obs)):
         want, ulines, _ = op_want(pi, o, ob["before"])
@@ -215,7 +259,7 @@ def oracle_int(info, sc, obs):
         # target (shared prompt).  A typed-but-unreturned navigation input left by an earlier cut is executed by this
         # operation's first return, so the device may get into that sibling only now: every mode it was in counts.
         seen = [bef["mode"]] + ([m for (m, _) in ob["log"]] + [ob["mode"]] if dirty else [])
-        region = (bef["belief"] == "DUMMY" and tgt is not None and tgt in pi["level_ids"]
+        region = (bef["belief"] == "DUMMY" and explained[i] and tgt is not None and tgt in pi["level_ids"]
                   and any(m != tgt and shared_prompt(plat, sim_mode(pi, m), sim_mode(pi, tgt)) for m in seen))
         regions.append(region)
         for (m, l) in ob["log"]:
@@ -250,10 +294,12 @@ def oracle(info, sc, obs):
     """returns None or (op index, what, in_known_region)"""
     if has_faults(sc):
         return oracle_int(info, sc, obs)
+    info = info_for(info, sc)
     plat = sc["platform"]
     pi = info[plat]
     default = [n for n, i in pi["level_ids"].items() if i == pi["default"]][0]
     navset = set(pi["line_ids"].keys())
+    explained = dummy_explained(sc, obs)
     for i, (o, ob) in enumerate(zip(sc["ops"], obs)):
         k = o["op"]
         bef = ob["before"]
@@ -268,7 +314,7 @@ def oracle(info, sc, obs):
             ulines = list(o["lines"])
             want = o["priv"] if o.get("priv") is not None else (None if bef["generic"] else default)
         tgt = o.get("level") if k == "acquire" else want
-        region = (bef["belief"] == "DUMMY" and tgt is not None and tgt != bef["mode"] and tgt in pi["level_ids"]
+        region = (bef["belief"] == "DUMMY" and explained[i] and tgt is not None and tgt != bef["mode"] and tgt in pi["level_ids"]
                   and shared_prompt(plat, sim_mode(pi, bef["mode"]), sim_mode(pi, tgt)))
         uset = set(ulines)
         ran = [(m, l) for (m, l) in ob["log"] if l in uset]
@@ -578,6 +624,65 @@ def int_scenarios(info, rng, thorough):
     return out
 
 
+# ------------------------------------------------------------------------------------------------
+# late registration: a configuration session is registered while the connection sits in some level — exec,
+# privilege_exec, configuration, tclsh, or INSIDE another session — and then configs at each session / configuration and
+# commands follow.  The tracked level is the only thing telling same-prompt sessions apart (every NX-OS session prompt
+# is "(config-s)#", EOS shows the first six characters of the name), so this is where a registration that touches the
+# belief (or the order of the disambiguation) shows.
+# ------------------------------------------------------------------------------------------------
+EOS_PREFIX_SESSIONS = ["deploy-blue", "deploy-green"]     # one prompt "(config-s-deploy)#": outside the generated family, oracle-only
+
+
+def reg_late_scenarios(info, thorough):
+    out = []
+    for plat in PLATFORMS:
+        pi = info[plat]
+        if len(pi["sessions"]) < 2:
+            continue
+        families = [(list(pi["sessions"][:2]), None)]
+        if thorough:
+            families.append((list(reversed(pi["sessions"][:2])), None))
+        if plat == "arista_eos":
+            families.append((list(EOS_PREFIX_SESSIONS), list(EOS_PREFIX_SESSIONS)))
+        base = [nm for nm in pi["level_ids"] if pi["level_ids"][nm] < pi["nbase"]]
+        for (first, late), extra in families:
+            def go(x):
+                if x == first or x.startswith("configuration"):
+                    return {"op": "cfgs", "lines": ["show u1"], "priv": x}
+                return {"op": "acquire", "level": x}
+
+            def follow(with_first):
+                t = [{"op": "cfgs", "lines": ["show u2", "show u3"], "priv": late},
+                     {"op": "cfgs", "lines": ["show u2", "bad f0", "show u3"], "stop": True, "priv": late},
+                     {"op": "cfgs", "lines": ["show u2"], "priv": None},
+                     {"op": "cmds", "lines": ["show u2"], "single": True},
+                     {"op": "interactive", "lines": ["show u2"], "priv": late}]
+                if with_first:
+                    t.append({"op": "cfgs", "lines": ["show u2", "show u3"], "priv": first})
+                t2 = [{"op": "cfgs", "lines": ["show u4"], "priv": late}, {"op": "cmds", "lines": ["show u4"], "single": True}]
+                if thorough:
+                    t2 += [{"op": "cfgs", "lines": ["show u4"], "priv": None}] + \
+                          ([{"op": "cfgs", "lines": ["show u4"], "priv": first}] if with_first else [])
+                return [(a, b) for a in t for b in t2]
+
+            lg = logins(pi)
+            for with_first in (True, False):
+                positions = base + ([first] if with_first else [])
+                for login in (lg if (thorough or with_first) else lg[-1:]):
+                    for x in positions:
+                        for (a, b) in follow(with_first):
+                            ops = [{"op": "open"}] + ([{"op": "register", "name": first}] if with_first else []) + \
+                                  [go(x), {"op": "register", "name": late}, dict(a), dict(b)]
+                            for stack in ("sync", "async"):
+                                sc = {"platform": plat, "stack": stack, "login": login, "secret": None, "policy": ["whole"],
+                                      "ops": [dict(o) for o in ops]}
+                                if extra:
+                                    sc["extra_sessions"] = list(extra)
+                                out.append((sc, "reg-late-prefix" if extra else "reg-late"))
+    return out
+
+
 def logins(pi):
     inv = {i: n for n, i in pi["level_ids"].items()}
     return [inv[i] for i in pi["login"]]
@@ -593,6 +698,8 @@ def history_neutral(sc):
 
 def strip_sc(sc):
     out = {k: sc[k] for k in ("platform", "stack", "login", "secret", "policy")}
+    if sc.get("extra_sessions"):
+        out["extra_sessions"] = list(sc["extra_sessions"])
     out["ops"] = [{k: v for k, v in o.items() if k != "probe"} for o in sc["ops"]]
     return out
 
@@ -725,10 +832,12 @@ def run(rep):
 
     # 4. interrupted operations: every read / write index of one operation, exception / timeout / asyncio cancellation
     scenarios += int_scenarios(info, rng, thorough)
+    # 5. late registration: a session registered while in exec / privilege_exec / configuration / tclsh / another session
+    scenarios += reg_late_scenarios(info, thorough)
 
     terms, kept, term_ix = [], [], []
     dist = {"by_suite": {}, "by_platform": {}, "op_kinds": {}, "results": {}, "history_len": {}, "in_known_region": 0,
-            "non_neutral": 0, "with_abort": 0, "belief_dummy_after_op": 0, "stacks": {"sync": 0, "async": 0},
+            "non_neutral": 0, "with_abort": 0, "register_while": {}, "oracle_only(extra_sessions)": 0, "belief_dummy_after_op": 0, "stacks": {"sync": 0, "async": 0},
             "interrupted": {"cut_ops": 0, "by_kind": {}, "by_point": {"INav": 0, "ILine": 0, "pending(oracle-only)": 0},
                             "device_executed_cut_line": 0, "belief_dummy_after_cut": 0, "histories_in_model": 0,
                             "histories_oracle_only": 0, "fault_index_beyond_operation": 0}}
@@ -742,7 +851,12 @@ def run(rep):
         dist["stacks"][sc["stack"]] += 1
         hl = len(sc["ops"])
         dist["history_len"][hl] = dist["history_len"].get(hl, 0) + 1
+        pi_sc = info_for(info, sc)[sc["platform"]]
         for o, ob in zip(sc["ops"], obs):
+            if o["op"] == "register" and ob["result"] == "ok":
+                key = "%s/%s" % ("session" if ob["before"]["mode"] in pi_sc["sessions"] else ob["before"]["mode"],
+                                 "belief-dummy" if ob["before"]["belief"] == "DUMMY" else "belief-set")
+                dist["register_while"][key] = dist["register_while"].get(key, 0) + 1
             dist["op_kinds"][o["op"]] = dist["op_kinds"].get(o["op"], 0) + 1
             dist["results"][ob["result"]] = dist["results"].get(ob["result"], 0) + 1
             if ob["belief"] == "DUMMY":
@@ -751,7 +865,7 @@ def run(rep):
                 dist["with_abort"] += 1
         if not neutral:
             dist["non_neutral"] += 1
-        nav = sum(1 for ob in obs for (_, l) in ob["log"] if l in info[sc["platform"]]["line_ids"])
+        nav = sum(1 for ob in obs for (_, l) in ob["log"] if l in pi_sc["line_ids"])
         rep.case((sc["platform"], sc["stack"], sc["login"], sc["secret"], json.dumps(sc["ops"], sort_keys=True)),
                  nontrivial=len(sc["ops"]) >= 3 and nav >= 3)
         points = None
@@ -778,7 +892,9 @@ def run(rep):
             points = history_points(info, sc, obs) if tuple(sc.get("policy") or ("whole",))[0] == "whole" else None
             di["histories_in_model" if points is not None else "histories_oracle_only"] += 1
         kept.append((sc, obs, suite))
-        if not has_faults(sc) or points is not None:
+        if sc.get("extra_sessions"):
+            dist["oracle_only(extra_sessions)"] += 1      # session names outside the generated family: not in the model
+        elif not has_faults(sc) or points is not None:
             terms.append(case_term(info, sc, obs, points))
             term_ix.append(len(kept) - 1)
         fail = oracle(info, sc, obs) if neutral else None
@@ -813,7 +929,11 @@ def run(rep):
     rep.coverage["exhaustive_part"] = ("all histories of length <= %d (IOS-XR: 3) over the reduced alphabet (see rule), every login level, "
                                        "sync+async" % L)
     rep.coverage["refuted"] = ["C03_full (C03_full_refuted)"]
-    rep.coverage["partial"] = ["C03_levels_partial", "C03_belief_sound", "C03_levels_interrupted", "C03_levels_on_core_platforms"]
+    rep.coverage["partial"] = ["C03_levels_partial", "C03_belief_sound", "C03_levels_interrupted", "C03_levels_on_core_platforms",
+                               "C03_register_in_any_level", "C03_levels_without_generic_on"]
+    rep.coverage["refuted"].append("C03_without_register_fact (C03_register_reset_refuted): the levels statement without the register fact")
+    rep.coverage["register_fact"] = {p: {"reg_keeps": info[p].get("reg_keeps"), "inspected": info[p].get("reg_keeps_inspected")}
+                                     for p in PLATFORMS}
     rep.coverage["refuted"].append("C03_int_without_order (C03_reset_after_refuted): belief soundness under interruption without the order fact")
     rep.coverage["order_fact"] = {p: info[p].get("reset_first") for p in PLATFORMS}
     rep.coverage["alphabet_sizes"] = {p: len(alphabet(info[p], info[p]["sessions"])) for p in PLATFORMS}
@@ -827,6 +947,11 @@ def run(rep):
                 "read/write index by a catchable exception, a ScrapliTimeout or asyncio cancellation (wait_for), then send_command, "
                 "send_configs, send_command on the same connection (quick: one of the five stack x kind variants per index in rotation, "
                 "thorough: all); int-random: random histories with unique lines, 1-2 operations cut at a random index (whole reads). "
+                "reg-late (NX-OS, EOS): open [, register A], go to X in {every base level, session A} (acquire_priv / send_configs), register B "
+                "while there, then t1 in {send_configs(B), send_configs(B, failing line, stop_on_failed), send_configs(), send_command, "
+                "send_interactive(B), send_configs(A)} and t2 in {send_configs(B), send_command (thorough: + send_configs(), send_configs(A))}, "
+                "x login x sync/async (thorough: both registration orders); reg-late-prefix: the same on EOS with sessions deploy-blue / "
+                "deploy-green (one prompt), oracle-only. "
                 "non-trivial = at least 3 operations and at least 3 navigation/abort lines executed by the device; "
                 "distinct = (platform, stack, login, secret, operation list)" % L)
     for sc, obs, suite in kept[:1] + kept[len(kept) // 2: len(kept) // 2 + 1] + kept[-1:]:
@@ -900,7 +1025,18 @@ MANIFEST = {
             "mode-neutral (the property's proviso): C03_belief_sound (after every operation the driver's belief is DUMMY or the device's mode) and "
             "C03_levels_partial (every send_command(s) line executes in default_desired while generic mode is off, every send_config(s) line in "
             "exactly the requested level, send_interactive at the level asked for, and exactly the expected lines reach the device) — for histories "
-            "that reset the belief (generic-mode on, or registering a sibling session) only while the device's prompt is unambiguous. The full "
+            "that reset the belief (generic-mode on) only while the device's prompt is unambiguous, and that register a session whose pattern "
+            "matches the prompt the device shows only while the belief is set. Registering a configuration session is NOT a belief-resetting "
+            "event (C03_register_keeps_belief; REGISTER fact p_reg_keeps, generated from the ast of update_privilege_levels, "
+            "register_configuration_session, _create_configuration_session and every method they call on self, sync and async: no assignment "
+            "to _current_priv_level; part of platform_check): C03_register_in_any_level — from ANY state with the belief set, the device in exec, "
+            "privilege_exec, configuration or INSIDE another session (all NX-OS sessions share one prompt; the tracked level is the only thing "
+            "telling them apart), a session is registered and any commands / configs at every level / acquire_priv / send_interactive follow with "
+            "the full specification and no region hypothesis; with a registration that forgets the level the statement is refuted "
+            "(C03_register_reset_refuted: send_configs(A) · register B · send_configs(B) types B's lines into A). More generally "
+            "switching generic-driver mode on is the only operation that resets a belief the driver has (believed_step): "
+            "C03_levels_without_generic_on — open, then ANY history that never switches generic mode on, sessions registered at any moment "
+            "and in any level, has the full specification with no region hypothesis. The full "
             "statement is REFUTED (C03_full_refuted, vm_compute witness on the generated IOS-XR and Junos tables): config · toggle generic mode on/off · "
             "send_configs(privilege_level='configuration_exclusive') runs in shared configuration; replayed on the real drivers = known finding. "
             "Interrupted operations: C03_belief_sound and C03_levels_interrupted hold for every history in which any operation may be cut (the "
@@ -913,12 +1049,19 @@ MANIFEST = {
             "compared with the model; the device-log oracle attributes every executed user line to its operation. "
             "partial: the runtime (real sync+asyncio drivers over SimDevice) is observed, not proved: the model is tied to it by the net-history "
             "correspondence (all histories of length <= 2 (IOS-XR and thorough: 3) over a reduced alphabet x platforms x login levels x stacks, plus random "
-            "and malformed histories) and an independent oracle reads the device's own execution log.",
+            "and malformed histories, plus the late-registration histories: NX-OS and EOS, [register A,] go to exec / privilege_exec / configuration / "
+            "tclsh / session A, register B there, then two of send_configs(B) (with and without a failing line + stop_on_failed) / send_configs(A) / "
+            "send_configs() / send_command / send_interactive(B)) and an independent oracle reads the device's own execution log; the oracle takes "
+            "a DUMMY belief for the known finding's premise only if the history accounts for it (login, generic mode switched on, an operation "
+            "that did not complete) — a completed operation, registration in particular, that forgets a known level is not excused.",
     "note": "Trusted: Coq kernel + vm_compute; hand model coq/model/NetDriver.v (navigation, _process_acquire_priv, send loops, five _abort_config "
             "variants; Junos abort modelled for both shapes, selected by an ast fact); gen/gen_netdriver.py (share class := equal pattern string and "
             "not_contains list — the classification fact C05 proves is assumed here and exercised only on SimDevice's prompts); the vendor device "
             "tables of harness/simdevice.py as the environment (compliant device; password dialogue abstracted to one transition); at most two "
-            "registered sessions in the computed per-platform check; channel-level framing (C01) is outside this model. Empty command/config lists "
+            "registered sessions in the computed per-platform check (family alpha1 / bravo2: one prompt on NX-OS, two distinct prompts on EOS); EOS "
+            "sessions that share their first six characters (deploy-blue / deploy-green: one prompt) are outside the generated family — suite "
+            "reg-late-prefix runs the late-registration histories with them on both real drivers, ORACLE-ONLY (device log + belief observer, not "
+            "in the model); channel-level framing (C01) is outside this model. Empty command/config lists "
             "are not generated (C13's IndexError finding). Interruption: the model has points in the navigation and the send loop only; "
             "the platform _abort_config step (abort line written, belief assigned after it) has no interruption points and the cut operation of the "
             "generated histories never has stop_on_failed, send_interactive is never the cut operation; cuts that leave a typed-but-unreturned input "
@@ -928,5 +1071,5 @@ MANIFEST = {
             "oracle-only (not in the model: the device-log oracle and the belief observer judge them); interrupted histories use no enable secret "
             "(a cut inside the password dialogue starves the next prompt query); residue left unread by a cut operation is the real channel's "
             "business (C01) and enters only through the runs.",
-    "technique": "Coq: invariant over all histories (with interruption points) + per-platform finite check by vm_compute (reflection) + ast order fact; vm_compute correspondence of the model against both real drivers; fault-injecting scripted transports; device-log oracle",
+    "technique": "Coq: invariant over all histories (with interruption points) + per-platform finite check by vm_compute (reflection) + ast order fact + ast register fact; vm_compute correspondence of the model against both real drivers; fault-injecting scripted transports; device-log oracle",
 }
